@@ -124,6 +124,31 @@ def run_case(case, rec):
         except Exception as ex:
             bad("compile_jacobian", "second-variable-order-raises:" + type(ex).__name__, ex=ex)
 
+    # the variable list given as *other objects of the same names* (the model declared a second time in a helper, a copy, a hand-made
+    # Variable("x[2]")): a variable is identified by its name, so the derivative callables must be the same
+    if "compile_jacobian" in fns:
+        pt = case["points"][0]
+        try:
+            import optyx
+
+            b3 = B.Builder(decls)
+            V3 = [vo if i % 2 else optyx.Variable(nm) for i, (nm, vo) in enumerate(zip(V, b3.variables(V)))]
+            jets3 = [R.ref_jet(D, nd, V, pt, order=1) for nd in nodes]
+            want3 = np.array([j.g for j, _ in jets3])
+            mag3 = max(max(t.mag, t.dmag) for _, t in jets3)
+            routes3 = [("compile_jacobian", lambda: AD.compile_jacobian(es, V3)(B.point_array(V, pt)), want3),
+                       ("compute_jacobian", lambda: [[float(np.asarray(g.evaluate(dict(pt))).reshape(-1)[0]) for g in row] for row in AD.compute_jacobian(es, V3)], want3)]
+            if m == 1:
+                routes3.append(("compile_gradient", lambda: C.compile_gradient(es[0], V3)(B.point_array(V, pt)), want3[0]))
+            for rname, call, w3 in routes3:
+                got3 = np.asarray(call(), dtype=float).reshape(w3.shape)
+                rec.cmp(w3.size, cell)
+                rec.events["equal-named-object-comparisons"] += 1
+                if not all(close(x_, y_, 1e-6, mag3)[0] for x_, y_ in zip(got3.reshape(-1), w3.reshape(-1))):
+                    bad(rname, "variables-given-as-equal-named-other-objects:mismatch", pt, got=got3.tolist(), want=w3.tolist())
+        except Exception as ex:
+            bad("compile_jacobian", "variables-given-as-equal-named-other-objects:raises:" + type(ex).__name__, ex=ex)
+
     nbad, worst = {}, {}
     for pt in case["points"]:
         x = B.point_array(V, pt)
@@ -286,6 +311,9 @@ def run(ctx, rec):
                 c = make_case(rng, X.D0, [node], vrel, fam)
                 if c is not None:
                     run_case(c, rec)
+                    if i % 3 == 0:
+                        rec.events["twin-named-cases"] += 1
+                        run_case(X.twin_named_case(c), rec)
                 if i % 2 == 0:
                     # rows that share sub-expression objects with each other and within themselves
                     rows = [X.dag_variant(node, (i // 2) % 4), X.dag_variant(node, (i // 2 + 1) % 4), node][: 1 + (i // 2) % 3]
